@@ -7,18 +7,27 @@ package connlimiter
 // One Limiter wraps 1-4 fake listeners.  The harness owns the order of
 // start-accept / deliver-conn / close-conn / close-listener operations and,
 // after every operation, waits for *quiescence*, which is decided from state
-// and not from the clock: every accept goroutine is either finished, blocked
-// inside the fake listener, or parked in sync.Cond.Wait without a pending
-// notification (read from the condition variable's ticket counters while its
-// locker is held).  At quiescence the real counter is compared with a
-// hysteresis reference.  See /verif/DESIGN.md, section 3, C18.
+// and not from the clock: in one stop-the-world goroutine dump every accept
+// goroutine of the case is either finished, blocked inside the fake listener,
+// or parked (sync.Cond.Wait, channel operation, select) somewhere
+// else, i.e. waiting in the limiter, and the harness' own counters did not move
+// around the dump.  Nothing of the limiter's internals is needed for that, so
+// the check builds against refactored internals.  What is observed is the
+// public behaviour: which accepts reach the underlying listener, which return
+// and with what, and how many connections are open.  These are compared with a
+// hysteresis reference.  If the limiter still has fields counter.current and
+// counter.isAccepting they are read reflectively at quiescence and compared
+// too; if not, that comparison is skipped.  See /verif/DESIGN.md, section 3,
+// C18.
 
 import (
 	"errors"
 	"fmt"
 	"net"
+	"os"
 	"reflect"
 	"runtime"
+	"strconv"
 	"strings"
 	"sync"
 	"sync/atomic"
@@ -30,19 +39,6 @@ import (
 	"github.com/AdguardTeam/golibs/logutil/slogutil"
 	"pgregory.net/rapid"
 	"verif.local/harness/vstat"
-)
-
-// Finding identities (see /verif/known_findings.json).
-const (
-	// vc18KnownLostWakeup: limitListener.decrement wakes one waiter (Signal)
-	// per released connection, so after the counter has fallen to resume and
-	// more than one slot is free, all but one waiting Accept stay parked.
-	vc18KnownLostWakeup = "limiter-signal-lost-wakeup"
-
-	// vc18KnownClosedLeak: limitListener.increment takes a slot from the
-	// counter before it looks at isClosed; Accept on a closed listener then
-	// returns net.ErrClosed without giving the slot back.
-	vc18KnownClosedLeak = "limiter-closed-accept-leaks-slot"
 )
 
 // vc18SettleTimeout is the generous bound on reaching quiescence.  Hitting it
@@ -255,6 +251,7 @@ func (l *vc18Ln) Addr() net.Addr { return vc18Addr(fmt.Sprintf("192.0.2.1:%d", 8
 // vc18Acc is one call of limitListener.Accept made by the harness.
 type vc18Acc struct {
 	ln   int
+	gid  uint64 // goroutine id, set by the goroutine itself; under h.mu
 	done bool
 	conn net.Conn
 	err  error
@@ -290,11 +287,20 @@ type vc18H struct {
 	returned  []int // per listener
 	nconns    int
 	panicked  string
+
+	debug, lastStates string
 }
 
 // vc18Snap is the state at quiescence.
 type vc18Snap struct {
-	cur      int
+	// peeked tells whether the limiter's own counter could be read; cur and
+	// isAcc are its values then.
+	peeked bool
+	cur    int
+	isAcc  bool
+
+	// acc is what the reference says after the check: false if the limiter
+	// must be refusing, true if it accepts or may accept.
 	acc      bool
 	live     int
 	parked   []int // per listener: inside limitListener.increment
@@ -305,95 +311,129 @@ type vc18Snap struct {
 	connDecs int
 }
 
-// vc18CondCounters reads the ticket counters of c.  The caller holds c.L, so
-// neither changes concurrently (Wait takes its ticket before unlocking and
-// this package only calls Signal and Broadcast with the locker held).
-func vc18CondCounters(c *sync.Cond) (wait, notify uint32, ok bool) {
+// vc18GoID returns the id of the calling goroutine.
+func vc18GoID() (id uint64) {
+	var buf [64]byte
+	b := buf[:runtime.Stack(buf[:], false)]
+	// "goroutine 123 [running]:"
+	f := strings.Fields(string(b))
+	if len(f) >= 2 {
+		id, _ = strconv.ParseUint(f[1], 10, 64)
+	}
+
+	return id
+}
+
+// vc18DumpBuf is reused between dumps.
+var (
+	vc18DumpMu  sync.Mutex
+	vc18DumpBuf = make([]byte, 256<<10)
+)
+
+// vc18GState is what a goroutine dump says about one goroutine.
+type vc18GState struct {
+	status string
+	inFake bool
+}
+
+// vc18Dump takes a goroutine dump (the world is stopped while it is taken, so
+// it is one consistent state) and returns the state of every goroutine.
+func vc18Dump() (gs map[uint64]vc18GState) {
+	vc18DumpMu.Lock()
+	defer vc18DumpMu.Unlock()
+
+	var buf []byte
+	for {
+		n := runtime.Stack(vc18DumpBuf, true)
+		if n < len(vc18DumpBuf) {
+			buf = vc18DumpBuf[:n]
+
+			break
+		}
+
+		vc18DumpBuf = make([]byte, 2*len(vc18DumpBuf))
+	}
+
+	gs = map[uint64]vc18GState{}
+	for _, g := range strings.Split(string(buf), "\n\n") {
+		if !strings.HasPrefix(g, "goroutine ") {
+			continue
+		}
+
+		hdr, _, _ := strings.Cut(g, "\n")
+		f := strings.Fields(hdr)
+		if len(f) < 3 {
+			continue
+		}
+
+		id, err := strconv.ParseUint(f[1], 10, 64)
+		if err != nil {
+			continue
+		}
+
+		status := hdr[strings.Index(hdr, "[")+1:]
+		status = strings.TrimSuffix(strings.TrimSpace(status), ":")
+		status = strings.TrimSuffix(status, "]")
+		status, _, _ = strings.Cut(status, ",")
+		gs[id] = vc18GState{status: status, inFake: strings.Contains(g, "vc18Ln).Accept")}
+	}
+
+	return gs
+}
+
+// vc18Parked reports whether status is one in which a goroutine stays until
+// somebody else acts: it is not running, not runnable and not merely waiting
+// for a mutex.
+func vc18Parked(status string) (ok bool) {
+	switch status {
+	// "semacquire" is deliberately not in the list: the runtime itself parks
+	// goroutines that way for short internal waits.
+	case "sync.Cond.Wait", "chan receive", "chan send", "select", "chan receive (nil chan)", "select (no cases)":
+		return true
+	default:
+		return false
+	}
+}
+
+// vc18Peek reads counter.current and counter.isAccepting of l reflectively, if
+// the limiter still has them.  It is only called at quiescence, when no other
+// goroutine can touch them.
+func vc18Peek(l *Limiter) (cur int, acc, ok bool) {
 	defer func() {
 		if recover() != nil {
 			ok = false
 		}
 	}()
 
-	nl := reflect.ValueOf(c).Elem().FieldByName("notify")
-	w, n := nl.FieldByName("wait"), nl.FieldByName("notify")
-	if !w.IsValid() || !n.IsValid() {
-		return 0, 0, false
+	if os.Getenv("VERIF_C18_NOPEEK") != "" {
+		// For testing the harness: behave as if the fields were gone.
+		return 0, false, false
 	}
 
-	return uint32(w.Uint()), uint32(n.Uint()), true
-}
-
-// vc18CondSelfTest checks that the ticket counters behave as this harness
-// assumes on the running toolchain.
-func vc18CondSelfTest() (err error) {
-	c := sync.NewCond(&sync.Mutex{})
-	parkedNow := func() (n int, ok bool) {
-		c.L.Lock()
-		defer c.L.Unlock()
-
-		w, nt, ok := vc18CondCounters(c)
-
-		return int(w - nt), ok
+	v := reflect.ValueOf(l).Elem().FieldByName("counter")
+	if !v.IsValid() {
+		return 0, false, false
 	}
 
-	waitFor := func(want int) (err error) {
-		deadline := time.Now().Add(vc18SettleTimeout)
-		for {
-			n, ok := parkedNow()
-			if !ok {
-				return errors.New("sync.Cond has no notify.wait/notify.notify counters")
-			}
-
-			if n == want {
-				return nil
-			}
-
-			if time.Now().After(deadline) {
-				return fmt.Errorf("sync.Cond self-test: %d parked, want %d", n, want)
-			}
-
-			time.Sleep(100 * time.Microsecond)
-		}
+	if v.Kind() == reflect.Pointer {
+		v = v.Elem()
 	}
 
-	var wg sync.WaitGroup
-	release := false
-	for i := 0; i < 3; i++ {
-		wg.Add(1)
-		go func() {
-			defer wg.Done()
-
-			c.L.Lock()
-			for !release {
-				c.Wait()
-			}
-			c.L.Unlock()
-		}()
+	c, a := v.FieldByName("current"), v.FieldByName("isAccepting")
+	if !c.IsValid() || !a.IsValid() || a.Kind() != reflect.Bool {
+		return 0, false, false
 	}
 
-	defer func() {
-		c.L.Lock()
-		release = true
-		c.Broadcast()
-		c.L.Unlock()
-		wg.Wait()
-	}()
-
-	if err = waitFor(3); err != nil {
-		return err
+	switch {
+	case c.CanUint():
+		cur = int(c.Uint())
+	case c.CanInt():
+		cur = int(c.Int())
+	default:
+		return 0, false, false
 	}
 
-	c.L.Lock()
-	c.Signal()
-	n1w, n1n, _ := vc18CondCounters(c)
-	c.L.Unlock()
-	if n1w-n1n != 2 {
-		return fmt.Errorf("sync.Cond self-test: after Signal %d un-notified, want 2", n1w-n1n)
-	}
-
-	// The signalled goroutine re-parks because release is still false.
-	return waitFor(3)
+	return cur, a.Bool(), true
 }
 
 func vc18Inconclusive(t interface {
@@ -471,6 +511,11 @@ func (h *vc18H) startAccept(li int) {
 			h.returned[li]++
 		}()
 
+		gid := vc18GoID()
+		h.mu.Lock()
+		a.gid = gid
+		h.mu.Unlock()
+
 		c, err = lim.Accept()
 	}()
 }
@@ -514,54 +559,99 @@ func (h *vc18H) failPending(li int, err error) {
 	ln.failCh <- err
 }
 
+// vc18Counters is what the harness itself counts.
+type vc18Counters struct {
+	entries, errRets, connDecs, live int
+	started, returned, blocked       [8]int
+	outstanding                      int
+}
+
+func (h *vc18H) counters() (c vc18Counters, gids []uint64) {
+	h.mu.Lock()
+	defer h.mu.Unlock()
+
+	c.entries, c.errRets, c.connDecs, c.live = h.entries, h.errRets, h.connDecs, h.live
+	for li, ln := range h.lns {
+		c.started[li], c.returned[li], c.blocked[li] = h.started[li], h.returned[li], ln.blocked
+		c.outstanding += h.started[li] - h.returned[li]
+	}
+
+	for _, a := range h.accs {
+		if !a.done {
+			gids = append(gids, a.gid)
+		}
+	}
+
+	return c, gids
+}
+
 // settle waits for quiescence and returns the state then.
 func (h *vc18H) settle() (s vc18Snap, why string) {
-	cond := h.lim.counterCond
 	deadline := time.Now().Add(vc18SettleTimeout)
 	for i := 0; ; i++ {
-		cond.L.Lock()
-		h.mu.Lock()
+		c1, gids := h.counters()
+		quiet := len(gids) == c1.outstanding
+		inFake, parked, other := 0, 0, ""
+		if quiet {
+			gs := vc18Dump()
+			h.lastStates = ""
+			for _, gid := range gids {
+				g, ok := gs[gid]
+				h.lastStates += fmt.Sprintf("  at settle: gid %d %+v\n", gid, g)
+				switch {
+				case gid == 0 || !ok:
+					quiet = false
+					other = "an accept goroutine has not started yet"
+				case g.inFake && g.status == "select":
+					inFake++
+				case !g.inFake && vc18Parked(g.status):
+					parked++
+				default:
+					quiet = false
+					other = fmt.Sprintf("an accept goroutine is %q (inside the underlying Accept: %t)", g.status, g.inFake)
+				}
+			}
 
-		w, n, ok := vc18CondCounters(cond)
-		parked := int(w - n)
-		blocked, outstanding := 0, 0
-		for li, ln := range h.lns {
-			blocked += ln.blocked
-			outstanding += h.started[li] - h.returned[li]
+			blocked := 0
+			for _, b := range c1.blocked {
+				blocked += b
+			}
+
+			c2, _ := h.counters()
+			quiet = quiet && c1 == c2 && inFake == blocked
 		}
 
-		quiet := ok && outstanding == parked+blocked
 		if quiet {
 			s = vc18Snap{
-				cur:      int(h.lim.counter.current),
-				acc:      h.lim.counter.isAccepting,
-				live:     h.live,
+				live:     c1.live,
 				nParked:  parked,
-				entries:  h.entries,
-				errRets:  h.errRets,
-				connDecs: h.connDecs,
+				entries:  c1.entries,
+				errRets:  c1.errRets,
+				connDecs: c1.connDecs,
 			}
-			for li, ln := range h.lns {
-				s.blocked = append(s.blocked, ln.blocked)
-				s.parked = append(s.parked, h.started[li]-h.returned[li]-ln.blocked)
+			for li := range h.lns {
+				s.blocked = append(s.blocked, c1.blocked[li])
+				s.parked = append(s.parked, c1.started[li]-c1.returned[li]-c1.blocked[li])
 			}
-		}
 
-		why = fmt.Sprintf("outstanding accepts %d, parked without notification %d, inside underlying Accept %d, counters readable %t",
-			outstanding, parked, blocked, ok)
+			s.cur, s.isAcc, s.peeked = vc18Peek(h.lim)
+			if os.Getenv("VERIF_C18_DEBUG") != "" {
+				gs := vc18Dump()
+				h.debug = fmt.Sprintf("counters %+v gids %v", c1, gids)
+				for _, gid := range gids {
+					h.debug += fmt.Sprintf("\n  at settle+: gid %d %+v", gid, gs[gid])
+				}
+				h.debug += "\n" + h.lastStates
+			}
 
-		h.mu.Unlock()
-		cond.L.Unlock()
-
-		if quiet {
 			return s, ""
 		}
 
-		if !ok || time.Now().After(deadline) {
-			return s, why
+		if time.Now().After(deadline) {
+			return s, fmt.Sprintf("outstanding accepts %d, parked %d, inside the underlying Accept %d; %s", c1.outstanding, parked, inFake, other)
 		}
 
-		if i < 200 {
+		if i < 50 {
 			runtime.Gosched()
 		} else {
 			time.Sleep(50 * time.Microsecond)
@@ -600,10 +690,10 @@ func (h *vc18H) shutdown(opens []*vc18Open) {
 	}
 }
 
-// reap waits for the accept goroutines of the case after shutdown.  A limiter
-// that fails to wake the waiters of a closed listener (which the checks report
-// before this runs) must not hang the harness, so the waiters are woken from
-// here; goroutines that still do not return are abandoned after a bounded wait.
+// reap waits for the accept goroutines of the case after shutdown.  With a
+// limiter that fails to release the waiters of a closed listener (which the
+// checks report before this runs) they never return; they are abandoned after
+// a bounded wait.  Later cases only look at their own goroutines.
 func (h *vc18H) reap() {
 	done := make(chan struct{})
 	go func() {
@@ -611,18 +701,9 @@ func (h *vc18H) reap() {
 		close(done)
 	}()
 
-	deadline := time.After(10 * time.Second)
-	for {
-		select {
-		case <-done:
-			return
-		case <-deadline:
-			return
-		case <-time.After(200 * time.Microsecond):
-			h.lim.counterCond.L.Lock()
-			h.lim.counterCond.Broadcast()
-			h.lim.counterCond.L.Unlock()
-		}
+	select {
+	case <-done:
+	case <-time.After(2 * time.Second):
 	}
 }
 
@@ -650,15 +731,12 @@ const (
 )
 
 func TestVerifC18Limiter(t *testing.T) {
-	if err := vc18CondSelfTest(); err != nil {
-		vc18Inconclusive(t, "cannot observe parked goroutines on this toolchain: %v", err)
-	}
-
 	st := vstat.New("C18", "limiter.sequences",
-		"rapid operation sequences (start-accept, deliver-conn, close-conn once/again/concurrently, close-listener once/again, add-listener, accept on a closed listener, failure of a pending underlying Accept, 2-4 accepts/closes in flight at once) over 1-4 fake listeners of mixed transports sharing one Limiter, some underlying Close calls reporting errors, stop in 1..6, resume in 0..stop; state compared with a hysteresis reference at state-decided quiescence after every operation; non-trivial = the counter reached stop and later fell to resume while >=2 accepts were waiting; distinct by (stop, resume, operation trace)",
+		"rapid operation sequences (start-accept, deliver-conn, close-conn once/again/concurrently, close-listener once/again, add-listener, accept on a closed listener, failure of a pending underlying Accept, 2-4 accepts/closes in flight at once) over 1-4 fake listeners of mixed transports sharing one Limiter, some underlying Close calls reporting errors, stop in 1..6, resume in 0..stop; after every operation the harness waits until one goroutine dump shows every accept goroutine finished, inside the fake listener or parked, and then compares which accepts were admitted, which returned and how many connections are open with a hysteresis reference (plus the limiter's own counter, read reflectively if it still exists); waiting-accepts-proceed rule: at that quiescence no operation is pending and every waiter is parked, so a waiter on an open listener while the reference must accept can never proceed and is a violation, decided from state, not from a time-out; non-trivial = the counter reached stop and later fell to resume while >=2 accepts were waiting; distinct by (stop, resume, operation trace)",
 		"reached-stop", "resumed-with-2+-waiters", "listener-closed-with-waiters", "listener-closed-with-pending",
 		"conn-closed-again", "conn-closed-concurrently", "waiters-on-2+-listeners", "resume<stop-1", "resume=stop", "resume=0", "stop=1",
-		"pending-accept-failed-with-waiters", "concurrent-batch", "conn-close-racing-listener-close")
+		"pending-accept-failed-with-waiters", "concurrent-batch", "conn-close-racing-listener-close",
+		"resumed-by-close-of-conn-from-other-listener", "resumed-only-other-listeners-waiting")
 	st.Finish(t)
 
 	rapid.Check(t, func(t *rapid.T) { vc18Case(t, st) })
@@ -686,14 +764,31 @@ func vc18Case(t *rapid.T, st *vstat.Stats) {
 		h.reap()
 	}()
 
+	// The reference: the number of open connections and pending accepts, and
+	// the set of values its accepting flag can have (operations whose effects
+	// can be ordered in several ways may leave both possible).
 	ref := vc18Ref{stop: stop, resume: resume, acc: true}
+	accSet := map[bool]bool{true: true}
 	var trace []string
 	classes := map[string]bool{}
 	prev := vc18Snap{acc: true, parked: make([]int, nLn), blocked: make([]int, nLn)}
 	reachedStop, nonTrivial := false, false
-	lostWakeup := false // recorded finding hit earlier in this case
 
 	fail := func(format string, args ...any) {
+		if os.Getenv("VERIF_C18_DEBUG") != "" {
+			fmt.Fprintf(os.Stderr, "DEBUGFAIL %s\n%s\n", fmt.Sprintf(format, args...), h.debug)
+			_, gids := h.counters()
+			buf := make([]byte, 1<<20)
+			buf = buf[:runtime.Stack(buf, true)]
+			for _, g := range strings.Split(string(buf), "\n\n") {
+				for _, gid := range gids {
+					if strings.HasPrefix(g, fmt.Sprintf("goroutine %d ", gid)) {
+						fmt.Fprintf(os.Stderr, "DEBUG outstanding accept:\n%s\n", g)
+					}
+				}
+			}
+		}
+
 		t.Fatalf("stop=%d resume=%d listeners=%d\ntrace: %s\n%s", stop, resume, len(h.lns), strings.Join(trace, "; "),
 			fmt.Sprintf(format, args...))
 	}
@@ -787,6 +882,12 @@ func vc18Case(t *rapid.T, st *vstat.Stats) {
 		}
 
 		if op.kind == vc18OpFailAccept && !injectedSeen {
+			_, gids := h.counters()
+			gs := vc18Dump()
+			for _, gid := range gids {
+				t.Logf("DEBUG gid %d: %+v", gid, gs[gid])
+			}
+			t.Logf("DEBUG snap %+v", s)
 			fail("after %v: the failure of the underlying Accept was not returned by any Accept", op)
 		}
 
@@ -798,41 +899,6 @@ func vc18Case(t *rapid.T, st *vstat.Stats) {
 		decs := (s.errRets - prev.errRets) + (s.connDecs - prev.connDecs)
 		incs := s.entries - prev.entries
 
-		// The counter is the number of open connections plus pending accepts.
-		if s.cur != s.live {
-			if d := s.cur - s.live; d >= 1 && d <= errNoEntry && st.Known(vc18KnownClosedLeak) {
-				classes["known:closed-accept-leak"] = true
-
-				return false
-			}
-
-			fail("after %v: counter.current = %d but open connections + pending accepts = %d (accepts that returned net.ErrClosed without reaching the underlying listener: %d)",
-				op, s.cur, s.live, errNoEntry)
-		}
-
-		// Hysteresis: the admissions and releases of this operation must be
-		// explainable by the reference in some order.
-		want := ref
-		feas := vc18Feasible(ref, decs, incs)
-		if len(feas) == 0 {
-			fail("after %v: %d admissions and %d releases from reference state %+v are impossible: a connection was admitted while the limiter had to refuse",
-				op, incs, decs, ref)
-		}
-
-		if !feas[s.acc] {
-			fail("after %v: counter.isAccepting = %t, reference allows %v (reference before: %+v, admissions %d, releases %d, counter.current %d)",
-				op, s.acc, feas, ref, incs, decs, s.cur)
-		}
-
-		if len(feas) == 2 {
-			classes["order-dependent-step"] = true
-		}
-
-		ref.cur, ref.acc = want.cur-decs+incs, s.acc
-		if ref.cur != s.cur {
-			fail("after %v: counter.current = %d, reference %d", op, s.cur, ref.cur)
-		}
-
 		// Closing a listener releases its waiters.
 		for li := range h.lns {
 			if h.lnClosed[li] && (s.parked[li] != 0 || s.blocked[li] != 0) {
@@ -841,7 +907,6 @@ func vc18Case(t *rapid.T, st *vstat.Stats) {
 			}
 		}
 
-		// Bounded liveness: nobody waits while the counter is accepting.
 		waiting := 0
 		for li := range h.lns {
 			if !h.lnClosed[li] {
@@ -849,22 +914,70 @@ func vc18Case(t *rapid.T, st *vstat.Stats) {
 			}
 		}
 
-		if s.acc && waiting > 0 && !lostWakeup {
-			// The recorded finding: one wake-up per release.  It needs at
-			// least two waiters before the operation and at least one
-			// release, and the wake-up that was sent did admit somebody.
-			signalLike := prev.nParked >= 2 && decs >= 1 && incs >= 1
-			if signalLike && st.Known(vc18KnownLostWakeup) {
-				lostWakeup = true
-				classes["known:lost-wakeup"] = true
-			} else {
-				fail("after %v: the counter is accepting (current %d < stop %d) but %d accepts on open listeners stay parked with no wake-up pending (waiters before the operation: %d, releases %d, admissions %d)",
-					op, s.cur, stop, waiting, prev.nParked, decs, incs)
+		// Hysteresis: the admissions and releases of this operation must be
+		// explainable by the reference in some order.
+		all := map[bool]bool{}
+		for a0 := range accSet {
+			r := ref
+			r.acc = a0
+			for a1 := range vc18Feasible(r, decs, incs) {
+				all[a1] = true
 			}
 		}
 
+		if len(all) == 0 {
+			fail("after %v: %d admissions and %d releases from reference state %+v (accepting: %v) are impossible: a connection was admitted while the limiter had to refuse",
+				op, incs, decs, ref, accSet)
+		}
+
+		// Waiting accepts proceed: everything is parked and no operation is
+		// pending, so whoever still waits on an open listener will wait for
+		// good unless the limiter is refusing.
+		if waiting > 0 && !all[false] {
+			fail("after %v: %d open connections and pending accepts (stop %d, resume %d), the limiter must be accepting after %d releases and %d admissions from %d (accepting: %v), but %d accepts on open listeners are parked in it and nothing is left that could wake them (waiters before the operation: %d)",
+				op, s.live, stop, resume, decs, incs, ref.cur, accSet, waiting, prev.nParked)
+		}
+
+		next := map[bool]bool{}
+		for a1 := range all {
+			if waiting == 0 || !a1 {
+				next[a1] = true
+			}
+		}
+
+		if len(all) == 2 {
+			classes["order-dependent-step"] = true
+		}
+
+		ref.cur += incs - decs
+		if ref.cur != s.live {
+			fail("harness: reference count %d, open connections + pending accepts %d", ref.cur, s.live)
+		}
+
+		// The limiter's own counter, if it can still be read.
+		if s.peeked {
+			classes["counter-read"] = true
+			if s.cur != s.live {
+				fail("after %v: counter.current = %d but open connections + pending accepts = %d (accepts that returned net.ErrClosed without reaching the underlying listener: %d)",
+					op, s.cur, s.live, errNoEntry)
+			}
+
+			if !next[s.isAcc] {
+				fail("after %v: counter.isAccepting = %t, reference allows %v (reference before: %+v accepting %v, admissions %d, releases %d, waiting %d)",
+					op, s.isAcc, next, ref, accSet, incs, decs, waiting)
+			}
+
+			next = map[bool]bool{s.isAcc: true}
+		} else {
+			classes["counter-not-readable"] = true
+		}
+
+		accSet = next
+		s.acc = accSet[true]
+		_ = errNoEntry
+
 		// Classes.
-		if !s.acc && s.cur == stop {
+		if !s.acc && s.live == stop {
 			reachedStop = true
 			classes["reached-stop"] = true
 		}
@@ -908,6 +1021,20 @@ func vc18Case(t *rapid.T, st *vstat.Stats) {
 
 			if op.kind == vc18OpCloseLn {
 				classes["resumed-by-listener-close"] = true
+			}
+		}
+
+		if resumed && (op.kind == vc18OpCloseConn || op.kind == vc18OpConcClose) {
+			// The released connection came in through one listener; was
+			// somebody waiting on another one?
+			via := opens[op.arg].ln
+			for li := range prev.parked {
+				if li != via && !h.lnClosed[li] && prev.parked[li] > 0 {
+					classes["resumed-by-close-of-conn-from-other-listener"] = true
+					if prev.parked[via] == 0 {
+						classes["resumed-only-other-listeners-waiting"] = true
+					}
+				}
 			}
 		}
 
@@ -1178,7 +1305,7 @@ func vc18Case(t *rapid.T, st *vstat.Stats) {
 
 	// Tear everything down as one more operation: nothing open and nothing
 	// pending afterwards, so the counter must be back at zero and accepting.
-	if !classes["known:closed-accept-leak"] {
+	{
 		for li := range h.lnClosed {
 			h.lnClosed[li] = true
 		}
@@ -1190,8 +1317,8 @@ func vc18Case(t *rapid.T, st *vstat.Stats) {
 
 		op := vc18Op{kind: vc18OpShutdown}
 		trace = append(trace, op.kind)
-		if check(op, nil) && (prev.cur != 0 || prev.live != 0 || !prev.acc) {
-			fail("after shutdown: counter.current = %d, isAccepting = %t, open + pending = %d; want 0, true, 0", prev.cur, prev.acc, prev.live)
+		if check(op, nil) && (prev.live != 0 || accSet[false] || (prev.peeked && prev.cur != 0)) {
+			fail("after shutdown: open + pending = %d, reference accepting %v, counter.current = %d (read: %t); want 0, accepting, 0", prev.live, accSet, prev.cur, prev.peeked)
 		}
 	}
 
@@ -1213,80 +1340,4 @@ func vc18Case(t *rapid.T, st *vstat.Stats) {
 	if nonTrivial && st.WantSample() {
 		st.Sample(map[string]any{"stop": stop, "resume": resume, "listeners": len(h.lns), "trace": strings.Join(trace, "; ")})
 	}
-}
-
-// ---------------------------------------------------------------------------
-// the counter alone
-
-func TestVerifC18Counter(t *testing.T) {
-	st := vstat.New("C18", "limiter.counter",
-		"rapid sequences of increment/decrement on the bare counter for stop in 1..8, resume in 0..stop, against the hysteresis reference; non-trivial = reached stop and later resumed; distinct by (stop, resume, sequence)",
-		"reached-stop", "refused-between-resume-and-stop", "resumed")
-	st.Finish(t)
-
-	rapid.Check(t, func(t *rapid.T) {
-		stop := rapid.IntRange(1, 8).Draw(t, "stop")
-		resume := rapid.IntRange(0, stop).Draw(t, "resume")
-		c := &counter{stop: uint64(stop), resume: uint64(resume), isAccepting: true}
-		ref := vc18Ref{stop: stop, resume: resume, acc: true}
-		n := rapid.IntRange(1, 60).Draw(t, "n")
-		var seq []byte
-		classes := map[string]bool{}
-		reached, resumed := false, false
-		for i := 0; i < n; i++ {
-			// Bias towards filling up while accepting and draining otherwise.
-			p := 70
-			if !ref.acc {
-				p = 30
-			}
-
-			if ref.cur == 0 || rapid.IntRange(0, 99).Draw(t, "p") < p {
-				seq = append(seq, '+')
-				wasAcc := ref.acc
-				want := ref.inc()
-				got := c.increment()
-				if got != want {
-					t.Fatalf("stop=%d resume=%d seq=%s: increment() = %t, reference %t (reference %+v, counter %+v)", stop, resume, seq, got, want, ref, *c)
-				}
-
-				if !wasAcc && ref.cur < stop && ref.cur > resume {
-					classes["refused-between-resume-and-stop"] = true
-				}
-			} else {
-				seq = append(seq, '-')
-				wasAcc := ref.acc
-				ref.dec()
-				c.decrement()
-				if !wasAcc && ref.acc {
-					resumed = reached
-					classes["resumed"] = true
-				}
-			}
-
-			if int(c.current) != ref.cur || c.isAccepting != ref.acc {
-				t.Fatalf("stop=%d resume=%d seq=%s: counter %+v, reference %+v", stop, resume, seq, *c, ref)
-			}
-
-			if c.current > c.stop {
-				t.Fatalf("stop=%d resume=%d seq=%s: current %d exceeds stop", stop, resume, seq, c.current)
-			}
-
-			if ref.cur == stop {
-				reached = true
-				classes["reached-stop"] = true
-			}
-		}
-
-		var cl []string
-		for k := range classes {
-			cl = append(cl, k)
-		}
-
-		nt := ""
-		if resumed {
-			nt = fmt.Sprintf("%d/%d/%s", stop, resume, seq)
-		}
-
-		st.Case(nt, cl...)
-	})
 }
